@@ -119,10 +119,16 @@ Section Unmarshal.
     | k :: rest =>
         match key_field sfs k with
         | None => Err
-        | Some (fi, _) =>
+        | Some (fi, ks) =>
             match field_get (f_go fi) fs with
             | Some (TLeaf v) => bind (entry_key sfs rest fs) (fun r => Ok (v :: r))
-            | _ => Err
+            | _ =>
+                (* an enum-typed key field is an int64, not a pointer: unset reads as 0 *)
+                match ks with
+                | SLeaf (YEnum ty) _ | SLeaf (YIdref ty) _ =>
+                    bind (entry_key sfs rest fs) (fun r => Ok (VEnum ty 0 :: r))
+                | _ => Err
+                end
             end
         end
     end.
